@@ -29,10 +29,16 @@ def edges_dominate(body, edges, x):
     return x not in reach(body, 0, removed_edges=list(edges))
 
 
-def def_of(body, local):
+def def_of(body, local, near=None):
+    """The single definition of a local; with several definitions (a flat view duplicates blocks when it threads
+    jumps) the one inside block `near`, if there is exactly one there."""
     d = body.assignments().get(local, [])
     if len(d) == 1:
         return d[0]
+    if near is not None:
+        here = [x for x in d if x[0] == near and x[1] != "term"]
+        if len(here) == 1:
+            return here[0]
     return None
 
 
@@ -50,7 +56,7 @@ def switch_condition(body, bb):
     l = pl["l"]
     neg = False
     for _ in range(6):
-        d = def_of(body, l)
+        d = def_of(body, l, near=bb)
         if d is None:
             return ("bool", t["discr"])
         dbb, j, rv = d
@@ -137,3 +143,32 @@ def natural_loop(body, header):
         loop.add(x)
         work.extend(body.preds(x))
     return loop
+
+
+def canon_place(b, pl):
+    """(local, field names) of a place, looking through references to locals: `(*p).f` with `p = &mut x` is `x.f`
+    (so that a struct handed to a helper by reference and updated there is the caller's struct in a flat view)."""
+    l, proj = pl["l"], list(pl["p"])
+    for _ in range(8):
+        if proj and proj[0] == "deref":
+            defs = b.assignments().get(l, [])
+            if len(defs) == 1 and defs[0][1] != "term":
+                rv = defs[0][2]
+                if rv["k"] == "ref":
+                    l, proj = rv["place"]["l"], list(rv["place"]["p"]) + proj[1:]
+                    continue
+                if rv["k"] == "use" and place_of(rv["op"]) is not None:
+                    p2 = place_of(rv["op"])
+                    l, proj = p2["l"], list(p2["p"]) + proj
+                    continue
+        break
+    return (l, tuple(e.get("n", e.get("f")) for e in proj if isinstance(e, dict) and "f" in e))
+
+
+def canon_of_borrow(b, op):
+    """The canonical place a reference operand points to (`&mut x.f`, possibly re-borrowed or passed through
+    parameters of inlined helpers); None if it is not a reference to a local place."""
+    pl = place_of(op)
+    if pl is None:
+        return None
+    return canon_place(b, {"l": pl["l"], "p": list(pl["p"]) + ["deref"]})
